@@ -1244,6 +1244,19 @@ func (c *FCtx) unrollLoop(st *State, lp *loopParts, iter func(s *State) []Flow, 
 
 // afterAsserts: `after pkg.F k assert E` clauses anchored at statement s: proved in the state after s, then assumed.
 func (c *FCtx) afterAsserts(st *State, s ast.Stmt) {
+	if c.fi != nil && c.curFI == c.fi && len(c.ghosts) > 0 {
+		s0 := s
+		if ls, ok := s0.(*ast.LabeledStmt); ok {
+			s0 = ls.Stmt
+		}
+		for _, ak := range c.fi.Anchors[s0] {
+			if g, ok := c.ghosts[ak]; ok {
+				id := st.vars[g]
+				st.cells[id] = boolSV(True())
+				st.written[id] = true
+			}
+		}
+	}
 	if c.curCon == nil || len(c.curCon.Afters) == 0 || c.fi == nil {
 		return
 	}
